@@ -17,6 +17,16 @@ spelling carries decoy values).  The scene is rendered by plain superposition of
 model evaluated on the pixel grid (never ``make_model_image``); group expectations come
 from a union-find single-linkage reference, pixel counts from a direct window count,
 parameter errors / qfit / cfit from their textbook definitions.
+
+Geometry: the image is not square (27 x 47).  The whole scene is carried through all 8 symmetries of the rectangle
+(axis 'frame': identity, the three flips -- wide image -- and the four transposed frames -- tall 47 x 27 image), so the
+isolated source whose fit box is cut by (scene 'base'), whose centre lies beyond (scene 'outside') or whose box is cut
+by two borders at once (scene 'corner') meets each of the four borders / corners in both orientations, and interior
+sources have x > ny (wide) and y > nx (tall): full product frame x scene x fit shape {5x5, 5x7, 7x5}, plus every frame
+x one configuration per remaining bookkeeping clause.  Input representation (axis 'input'): the same data / mask /
+1-sigma errors handed over as Quantity arrays or as one NDData whose uncertainty is a StdDevUncertainty,
+VarianceUncertainty or InverseVariance, without and with units, for both drivers: the result must equal the plain-array
+call with error = sigma (and Iterative(maxiters=1) == PSFPhotometry on that same representation).
 """
 import itertools
 import math
@@ -40,14 +50,32 @@ RULE = ('for every configuration: all N! input row orders x all set partitions o
         'two spellings} x driver, the init table / column must win and the finder must not be called), and the '
         'column-name alphabet is complete: all 14 documented x/y spellings alone and all 91 ordered pairs of them '
         '(the 10 flux spellings / 45 pairs ride along cyclically; the 3 extra-parameter spellings / 3 pairs with the '
-        'free-fwhm model), the later spelling filled with decoy values and placed first in the table; plus all ordered tuples of <= 4 distinct points of a 3x3 lattice x 9 '
+        'free-fwhm model), the later spelling filled with decoy values and placed first in the table; '
+        'geometry: all 8 symmetries of the non-square image (4 wide 27x47 frames, 4 tall 47x27 frames) x {isolated source '
+        'cut by a border, centred beyond a border, cut by two borders} x fit shapes {5x5, 5x7, 7x5} (full product, 72 '
+        'configurations) + the 7 non-identity frames x 13 single-clause configurations (negative flux, mask, NaN+mask, '
+        'bound hit, asymmetric bounds, local_bkg column / estimator / both, error ramp, fixed x, iterative driver, '
+        'iterative driver with the source beyond a border, perturbed scene) + x 2 grouper configurations; '
+        'input representation: 8 non-array forms (Quantity arrays; NDData with StdDev / Variance / InverseVariance '
+        'uncertainty, unit-less and in Jy; NDData in Jy with a standard deviation in mJy) x {PSFPhotometry, '
+        'IterativePSFPhotometry} x error map {flat, ramp} x {clean, perturbed} (+ mask and local_bkg column; no error map '
+        'for the 3 forms that then differ), each compared with the plain-array call of the same driver; plus all ordered tuples of <= 4 distinct points of a 3x3 lattice x 9 '
         'separations for SourceGrouper alone')
 ASSUMPTIONS = ['numpy, astropy.modeling fitters (TRF/LM/simplex), astropy.table and the PSF model classes '
                'themselves (evaluate; covered by C13) are trusted',
                'exact recovery is demanded only of groups that contain every source contributing more than 1e-9 of '
                'a member peak inside a member fit box (rule evaluated on the input truth), with an LSQ fitter, no '
                'bound closer than the initial offset and a local background known to 1e-9 of the peak',
-               'N <= 4 sources, one lattice scene (+2 variants), images 27x47: larger groups are out of the bound',
+               'N <= 4 sources, one lattice scene (+3 variants), images 27x47 and 47x27 (the 8 symmetric copies of the '
+               'scene): larger groups and other aspect ratios are out of the bound; square images are not enumerated '
+               '(a square image cannot distinguish the two axes)',
+               'flag 2 ("the fit x and/or y position lies outside of the input data") is judged with the ambiguity of '
+               'the documented wording: it must be set when a coordinate is < -0.5 or > n (outside by both readings: '
+               'pixel edges and array extent) and must be clear when 0 <= coordinate <= n - 0.5 for both axes',
+               'input representations: astropy.nddata uncertainty classes mean what astropy documents (variance = '
+               'sigma^2, inverse variance = 1/sigma^2, unit conversion mJy -> Jy); the sigma / variance arrays are '
+               'built with plain numpy; equality with the array call is demanded to 1e-9 relative (integer columns '
+               'exactly, flag bit 8 excepted)',
                'precedence rules are the documented ones (PSFPhotometry docstring: "The local_bkg values in init_params '
                'override this keyword", "The group_id values in init_params override this keyword", "The (x, y) values in '
                'init_params override this keyword", "If initial flux values are present in the init_params table, they '
@@ -84,7 +112,7 @@ ALIAS_PAIR = [f'x{XY_SUFFIX[i]}>x{XY_SUFFIX[j]}' for i, j in XY_PAIRS]
 
 AXES = {                              # first value = default
     'psf': ['cgauss', 'gauss', 'image', 'gridded'],
-    'fit': ['5', '5x7'],
+    'fit': ['5', '5x7', '7x5'],
     'mask': ['none', 'inbox', 'centre'],
     'err': ['none', 'flat', 'ramp'],
     # 'column+estimator': a local_bkg column AND a localbkg_estimator (the column must win); the scene is built so
@@ -92,7 +120,8 @@ AXES = {                              # first value = default
     'bkg': ['none', 'column', 'estimator', 'column+estimator'],
     'bnd': ['none', '2', 'hit', 'hitx', 'asym'],
     'k': [1, 7],
-    'scene': ['base', 'outside', 'neg'],
+    # 'corner': the isolated source sits 1.1 / 1.2 px from two borders at once (its fit box is cut by both)
+    'scene': ['base', 'outside', 'neg', 'corner'],
     'nan': ['none', 'nan', 'nan+mask', 'nancentre+mask'],
     'fitter': ['trf', 'lm', 'simplex'],
     'fix': ['none', 'xy', 'x', 'freefwhm'],
@@ -107,6 +136,16 @@ AXES = {                              # first value = default
     # the finder must not be called).  The iterative driver always has it (a finder is mandatory there).
     'finder': ['none', 'decoy'],
     'alias': ALIAS_SINGLE + ALIAS_PAIR,
+    # the 8 symmetries of the rectangle applied to the whole scene (truth, start values, background map, error map):
+    # flips keep the 27 x 47 (wide) image, the 't*' frames transpose it to 47 x 27 (tall).  The isolated source that
+    # is cut by / lies beyond the bottom border in 'id' is cut by / lies beyond each of the four borders in turn, in
+    # both orientations; interior sources get x > ny (wide) and y > nx (tall).
+    'frame': list(R.FRAMES),
+    # how (data, mask, error) are handed over: plain arrays + keywords (default), Quantity arrays, or one NDData
+    # object whose uncertainty is a StdDevUncertainty / VarianceUncertainty / InverseVariance, without and with
+    # units ('mjy': data in Jy, standard deviation in mJy).  With units the init flux / local_bkg columns carry Jy.
+    'input': ['arrays', 'ndd', 'ndd-var', 'ndd-ivar', 'qarr', 'ndd-unit', 'ndd-unit-var', 'ndd-unit-ivar',
+              'ndd-unit-mjy'],
 }
 DEFAULT = {k: v[0] for k, v in AXES.items()}
 PRODUCT_AXES = ['psf', 'fit', 'mask', 'err', 'bkg', 'bnd', 'k']
@@ -163,6 +202,59 @@ ORDER_ONLY = ([{'mode': m} for m in ('nogroup', 'sep1', 'sep3', 'sep6', 'sep30')
               + [{'mode': 'sep6', 'noise': 1}, {'mode': 'sep3', 'fit': '5x7', 'mask': 'inbox'},
                  {'mode': 'sep6', 'psf': 'image', 'k': 7},
                  {'mode': 'sep3', 'finder': 'decoy'}, {'mode': 'sep3', 'bkg': 'column+estimator', 'alias': 'x_init>x'}])
+# geometry product: all 8 frames x {isolated source cut by a border, beyond a border, cut by two borders} x all three
+# fit shapes (N = 3: the isolated source is identity 2), plus every frame x one configuration per remaining bookkeeping
+# clause (flag 4, flag 1 / npixfit with a mask and a NaN, flags 32 both ways, local background from the column / the
+# estimator / both, error map, a fixed coordinate, the iterative driver, the perturbed scene)
+FRAME_SCENES = ['base', 'outside', 'corner']
+FRAME_FITS = ['5', '5x7', '7x5']
+FRAME_CLAUSES = [{'scene': 'neg'}, {'mask': 'inbox'}, {'nan': 'nan+mask'}, {'bnd': 'hit'}, {'bnd': 'asym'},
+                 {'bkg': 'column'}, {'bkg': 'estimator'}, {'bkg': 'column+estimator'}, {'err': 'ramp'}, {'fix': 'x'},
+                 {'driver': 'iter'}, {'driver': 'iter', 'scene': 'outside'}, {'noise': 1}]
+FRAME_ORDER_ONLY = [{'mode': 'sep3'}, {'mode': 'sep3', 'scene': 'outside'}]
+
+
+def _nd(c):
+    return {a: v for a, v in c.items() if v != DEFAULT[a]}
+
+
+def frame_cfgs():
+    out = []
+    for fr in AXES['frame']:
+        for sc in FRAME_SCENES:
+            for ft in FRAME_FITS:
+                out.append(_nd({'frame': fr, 'scene': sc, 'fit': ft}))
+    return out
+
+
+def frame_clause_cfgs():
+    return [_nd(dict(c, frame=fr)) for fr in AXES['frame'][1:] for c in FRAME_CLAUSES]
+
+
+def frame_order_cfgs():
+    return [_nd(dict(c, frame=fr)) for fr in AXES['frame'][1:] for c in FRAME_ORDER_ONLY]
+
+
+# input-form product: every non-array form x error map x driver x {clean, perturbed} scene (+ a user mask, + a supplied
+# local_bkg column so that a column with units is exercised); forms that differ only in the uncertainty type collapse
+# when there is no error map, so err = none runs 'ndd', 'qarr', 'ndd-unit' only.
+INPUT_NOERR = ['ndd', 'qarr', 'ndd-unit']
+
+
+def input_cfgs():
+    out = []
+    for form in AXES['input'][1:]:
+        for drv in AXES['driver']:
+            for err in ('flat', 'ramp'):
+                for noise in (0, 1):
+                    out.append(_nd({'input': form, 'driver': drv, 'err': err, 'noise': noise}))
+            out.append(_nd({'input': form, 'driver': drv, 'err': 'ramp', 'noise': 1, 'mask': 'inbox', 'bkg': 'column'}))
+            if form in INPUT_NOERR:
+                out.append(_nd({'input': form, 'driver': drv}))
+                out.append(_nd({'input': form, 'driver': drv, 'mask': 'inbox', 'noise': 1}))
+    return out
+
+
 # N = 4 (360 cases per configuration) in the quick tier
 QUICK_N4 = [{}, {'labels': 'gap'}, {'fit': '5x7'}, {'mask': 'inbox'}, {'noise': 1}, dict(PREC_ALL)]
 
@@ -191,6 +283,14 @@ TOL_INV_ERR = 1e-5
 # 2e-2.  qfit / cfit recomputed from the output parameters: 1e-9 relative + 1e-12 absolute measured -> 1e-6.
 TOL_ERRREF = 2e-2
 TOL_QC = 1e-6
+# input representations: the array call gets sigma, the NDData forms sigma / sigma^2 / 1/sigma^2 / 1000 sigma mJy, which
+# the implementation has to convert back: the weights may differ in the last bit (sqrt(1/(1/s^2)), 1e-3 * (1e3 s)), which
+# moves a converged least-squares solution by O(cond * 1e-16); measured worst |a - b| / (|b| + 1) over the quick space
+# (C12_CAL=1, seed 0): 6.1e-12 (form ndd-unit-mjy; 0 for the std / var forms) -> 1e-9 (x160).  A wrong conversion
+# (variance taken for sigma) changes the parameter errors by the factor sigma (2 for the flat map, 1.9..3.5 under the
+# sources for the ramp) and, on the perturbed scene, the fitted values by ~1e-3.
+TOL_INPUT = 1e-9
+INPUT_EXACT_COLS = ('id', 'group_id', 'group_size', 'iter_detected', 'npixfit', 'flags')
 
 CAL = os.environ.get('C12_CAL')
 
@@ -204,6 +304,11 @@ def full_cfg(c):
 def cfg_tag(cfg, keys=('scene', 'nan', 'fitter', 'fix', 'fluxinit', 'mode', 'driver', 'bkg', 'bnd', 'mask', 'noise',
                        'finder')):
     t = [f'{k}={cfg[k]}' for k in keys if cfg[k] != DEFAULT[k]]
+    if cfg['frame'] != 'id':                      # 7 frames share two sites: same orientation / transposed (tall)
+        t.append('frame=transposed' if cfg['frame'].startswith('t') else 'frame=flipped')
+    if cfg['input'] != 'arrays':                  # 8 forms share three sites
+        t.append('input=' + ('quantity-arrays' if cfg['input'] == 'qarr' else
+                             'nddata-units' if 'unit' in cfg['input'] else 'nddata'))
     if cfg['alias'] != DEFAULT['alias']:          # 104 spellings / pairs share two sites
         t.append('alias=two-spellings' if '>' in cfg['alias'] else 'alias=other-spelling')
     return ','.join(t) or 'default'
@@ -261,10 +366,12 @@ def _gauss_img(n, osamp, fwhm):
 _PSF = {}
 
 
-def make_psf(name):
+def make_psf(name, shape=None):
     from astropy.nddata import NDData
     from photutils.psf import CircularGaussianPRF, GaussianPRF, GriddedPSFModel, ImagePSF
-    if name not in _PSF:
+    shape = tuple(shape or SHAPE)
+    key = (name, shape if name == 'gridded' else None)
+    if key not in _PSF:
         if name == 'cgauss':
             m = CircularGaussianPRF(fwhm=2.7)
         elif name == 'gauss':
@@ -272,24 +379,25 @@ def make_psf(name):
         elif name == 'image':
             m = ImagePSF(_gauss_img(51, 2, 2.7), oversampling=2)
         elif name == 'gridded':
-            ny, nx = SHAPE
+            ny, nx = shape
             pos = [(0, 0), (nx - 1, 0), (0, ny - 1), (nx - 1, ny - 1)]
             arr = np.array([_gauss_img(51, 2, f) for f in (2.5, 2.8, 3.0, 2.6)])
             m = GriddedPSFModel(NDData(arr, meta={'grid_xypos': pos, 'oversampling': 2}))
         else:
             raise KeyError(name)
-        _PSF[name] = m
-    return _PSF[name].copy()
+        _PSF[key] = m
+    return _PSF[key].copy()
 
 
-def source_image(psf, x, y, flux, extra=None):
+def source_image(psf, x, y, flux, extra=None, shape=None):
     m = psf.copy()
     m.x_0 = x
     m.y_0 = y
     m.flux = flux
     for k, v in (extra or {}).items():
         setattr(m, k, v)
-    yy, xx = np.mgrid[0:SHAPE[0], 0:SHAPE[1]]
+    shape = shape or SHAPE
+    yy, xx = np.mgrid[0:shape[0], 0:shape[1]]
     return np.asarray(m(xx, yy), float)
 
 
@@ -310,11 +418,13 @@ _SCN = {}
 
 def scenario(cfg, N, seed):
     """Everything of a case that does not depend on row order / partition."""
-    key = (seed, N) + tuple(cfg[k] for k in sorted(AXES) if k not in ('labels', 'mode', 'driver', 'finder', 'alias', 'fluxinit'))
+    key = (seed, N) + tuple(cfg[k] for k in sorted(AXES) if k not in ('labels', 'mode', 'driver', 'finder', 'alias', 'fluxinit', 'input'))
     if key in _SCN:
         return _SCN[key]
     g = gen(seed)
-    psf = make_psf(cfg['psf'])
+    frame = cfg['frame']
+    shape = R.frame_shape(frame, SHAPE)
+    psf = make_psf(cfg['psf'], shape)
     k = cfg['k']
     truth = []
     for i in range(N):
@@ -322,12 +432,13 @@ def scenario(cfg, N, seed):
         x, y = x + g['jit'][i, 0], y + g['jit'][i, 1]
         if cfg['scene'] == 'outside' and i == 2:
             y = -1.3 + g['jit'][i, 1]          # centre outside the image; two rows of its fit box are inside
+        if cfg['scene'] == 'corner' and i == 2:
+            x = SHAPE[1] - 1 - 1.1 + g['jit'][i, 0]     # 1.1 px from the right border as well: box cut by two borders
         if cfg['scene'] == 'neg' and i == 1:
             f = -f
         truth.append((x, y, f * k))
-    imgs = [source_image(psf, *t) for t in truth]
-    peaks = [np.abs(im).max() for im in imgs]
-    data = np.sum(imgs, axis=0)
+    # everything below up to the start values is laid out in the base frame (27 x 47) and then carried to the frame
+    # of the case by the symmetry: coordinates by R.frame_point, maps by R.frame_array
     # background: uniform for the estimator; for the supplied column a step (5k left of x = 28, 8k right of it:
     # the pair/cluster and the isolated source get different local_bkg values, no fit box touches the step).
     # column + estimator: the step only on "islands" (|dx|, |dy| <= 4.5 px around every source: every fit box of a
@@ -349,9 +460,6 @@ def scenario(cfg, N, seed):
         bsrc = [float(step[min(max(int(round(t[0])), 0), SHAPE[1] - 1)]) for t in truth]
     else:
         bsrc = [float(bmap[0, 0])] * N
-    data = data + bmap
-    if cfg['noise']:
-        data = data + 0.03 * min(peaks) * g['noise']
     init = []
     for i, (x, y, f) in enumerate(truth):
         ox, oy = g['off'][i]
@@ -362,13 +470,29 @@ def scenario(cfg, N, seed):
         elif cfg['fix'] == 'x':
             ox = 0.0
         init.append((x + ox, y + oy, f * FLUXFAC[i]))
-    fit_shape = (5, 5) if cfg['fit'] == '5' else (5, 7)
+    yy, xx = np.mgrid[0:SHAPE[0], 0:SHAPE[1]]
+    error = {'none': None, 'flat': np.full(SHAPE, 2.0), 'ramp': 1.0 + 0.05 * xx + 0.03 * yy}[cfg['err']]
+    far = (SHAPE[1] - 1, 0)                        # base-frame pixel far from every fit box
+    # ---- carry the layout to the frame of the case ----
+    truth = [R.frame_point(frame, t[0], t[1], SHAPE) + (t[2],) for t in truth]
+    init = [R.frame_point(frame, t[0], t[1], SHAPE) + (t[2],) for t in init]
+    far = R.frame_point(frame, far[0], far[1], SHAPE)
+    bmap = R.frame_array(frame, bmap)
+    noise = R.frame_array(frame, g['noise'])
+    if error is not None:
+        error = R.frame_array(frame, error)
+    imgs = [source_image(psf, *t, shape=shape) for t in truth]
+    peaks = [np.abs(im).max() for im in imgs]
+    data = np.sum(imgs, axis=0) + bmap
+    if cfg['noise']:
+        data = data + 0.03 * min(peaks) * noise
+    fit_shape = {'5': (5, 5), '5x7': (5, 7), '7x5': (7, 5)}[cfg['fit']]
     # masks / bad pixels are attached to source identity 0 (present for every N)
     cx0 = R.centre_pixels(init[0][0])[0]
     cy0 = R.centre_pixels(init[0][1])[0]
     umask = None
     if cfg['mask'] != 'none' or cfg['nan'] in ('nan+mask', 'nancentre+mask'):
-        umask = np.zeros(SHAPE, bool)
+        umask = np.zeros(shape, bool)
     if cfg['mask'] == 'inbox':
         umask[cy0 + 1, cx0 - 2] = True
     elif cfg['mask'] == 'centre':
@@ -376,19 +500,17 @@ def scenario(cfg, N, seed):
     if cfg['nan'] == 'nan+mask':
         umask[cy0 + 2, cx0] = True
     elif cfg['nan'] == 'nancentre+mask':
-        umask[0, SHAPE[1] - 1] = True          # far from every fit box
+        umask[far[1], far[0]] = True           # far from every fit box
     if umask is not None:
         data = np.where(umask, 1.0e5, data)     # garbage under the mask: the mask must be honoured
-    nanmask = np.zeros(SHAPE, bool)
+    nanmask = np.zeros(shape, bool)
     if cfg['nan'] in ('nan', 'nan+mask'):
         nanmask[cy0 - 1, cx0 + 1] = True
     elif cfg['nan'] == 'nancentre+mask':
         nanmask[cy0, cx0] = True
     data = np.where(nanmask, np.nan, data)
     bad = nanmask if umask is None else (nanmask | umask)
-    yy, xx = np.mgrid[0:SHAPE[0], 0:SHAPE[1]]
-    error = {'none': None, 'flat': np.full(SHAPE, 2.0), 'ramp': 1.0 + 0.05 * xx + 0.03 * yy}[cfg['err']]
-    s = {'psf': psf, 'truth': truth, 'imgs': imgs, 'peaks': peaks, 'data': data, 'bmap': bmap, 'bsrc': bsrc, 'init': init,
+    s = {'shape': shape, 'psf': psf, 'truth': truth, 'imgs': imgs, 'peaks': peaks, 'data': data, 'bmap': bmap, 'bsrc': bsrc, 'init': init,
          'fit_shape': fit_shape, 'umask': umask, 'bad': bad, 'error': error}
     if len(_SCN) > 64:
         _SCN.clear()
@@ -506,7 +628,47 @@ def build_init(cfg, s, perm, part):
         t['group_id'] = labels
     if cfg['bkg'] in ('column', 'column+estimator'):
         t['local_bkg'] = [s['bsrc'][i] for i in perm]
+    if has_units(cfg):
+        # "If data is a Quantity array, then the initial flux values in this table must also have compatible units",
+        # "If data has units, then the local_bkg values must have the same units"
+        import astropy.units as u
+        from astropy.table import QTable
+        t = QTable(t)
+        for nm in t.colnames:
+            if nm in FLUX_NAMES or nm == 'local_bkg':
+                t[nm] = np.asarray(t[nm], float) * u.Jy
     return t, labels
+
+
+def has_units(cfg):
+    return cfg['input'] == 'qarr' or 'unit' in cfg['input']
+
+
+def call_phot(ph, cfg, s, init, form=None):
+    """Call the photometry object with (data, mask, error) in the representation ``form`` of the 'input' axis.  The
+    conversions sigma -> variance -> inverse variance are written out here with plain numpy."""
+    form = form or cfg['input']
+    data = s['data'].copy()
+    mask = None if s['umask'] is None else s['umask'].copy()
+    error = None if s['error'] is None else s['error'].copy()
+    if form == 'arrays':
+        return ph(data, mask=mask, error=error, init_params=init.copy())
+    import astropy.units as u
+    if form == 'qarr':
+        return ph(data * u.Jy, mask=mask, error=None if error is None else error * u.Jy, init_params=init.copy())
+    from astropy.nddata import InverseVariance, NDData, StdDevUncertainty, VarianceUncertainty
+    unit = u.Jy if 'unit' in form else None
+    unc = None
+    if error is not None:
+        if form.endswith('-var'):
+            unc = VarianceUncertainty(error * error, unit=None if unit is None else unit ** 2)
+        elif form.endswith('-ivar'):
+            unc = InverseVariance(1.0 / (error * error), unit=None if unit is None else unit ** -2)
+        elif form.endswith('-mjy'):
+            unc = StdDevUncertainty(error * 1000.0, unit=u.mJy)
+        else:
+            unc = StdDevUncertainty(error, unit=unit)
+    return ph(NDData(data, mask=mask, uncertainty=unc, unit=unit), init_params=init.copy())
 
 
 def _f(v):
@@ -561,11 +723,11 @@ def run_case(acc, case, seed, cache=None):
 
     ph, fitter, finder = build_phot(cfg, s, cfg['driver'])
     data = s['data'].copy()
+    shp = s['shape']             # image shape of this case (27 x 47 or, in the transposed frames, 47 x 27)
     try:
         with warnings.catch_warnings():
             warnings.simplefilter('ignore')
-            res = ph(data, mask=None if s['umask'] is None else s['umask'].copy(),
-                     error=None if s['error'] is None else s['error'].copy(), init_params=init.copy())
+            res = call_phot(ph, cfg, s, init)
     except Exception as e:       # the property says these calls succeed (all inputs are documented-valid)
         acc.violation('raises', f'{tag}:{type(e).__name__}', case, repr(e)[:300], 'a result table')
         return None
@@ -594,9 +756,9 @@ def run_case(acc, case, seed, cache=None):
         acc.violation('row-order', f'{tag}:x_init/y_init', case, _r(got_init), _r([xin, yin]),
                       'output rows are not the input rows in input order')
         return None
-    if cfg['fluxinit'] != 'aper' and _col(res, 'flux_init') != [float(v) for v in init[win[2]]]:
+    if cfg['fluxinit'] != 'aper' and _col(res, 'flux_init') != [_f(v) for v in init[win[2]]]:
         acc.violation('row-order', f'flux_init:fluxinit={cfg["fluxinit"]},driver={cfg["driver"]}', case,
-                      _r(_col(res, 'flux_init')), _r(list(init[win[2]])),
+                      _r(_col(res, 'flux_init')), _r([_f(v) for v in init[win[2]]]),
                       'flux_init is the supplied flux column (first spelling in the documented order; it overrides '
                       'aperture_radius)')
         return None
@@ -636,7 +798,7 @@ def run_case(acc, case, seed, cache=None):
         opts = []
         for cx in R.centre_pixels(xin[r]):
             for cy in R.centre_pixels(yin[r]):
-                opts.append(R.box_pixels(xin[r], yin[r], s['fit_shape'], SHAPE, s['bad'], cx, cy))
+                opts.append(R.box_pixels(xin[r], yin[r], s['fit_shape'], shp, s['bad'], cx, cy))
         pick = [o for o in opts if len(o[0]) == got_npix[r]] or opts[:1]
         boxes.append(pick[0][0])
         cens.append(pick[0][1])
@@ -666,11 +828,14 @@ def run_case(acc, case, seed, cache=None):
         if bool(fl & 1) != e1:
             acc.violation('flag1', tag, case, {'row': r, 'flags': fl, 'npixfit': got_npix[r]},
                           f'bit 1 {"set" if e1 else "clear"} (box area {area})')
-        ny, nx = SHAPE
+        ny, nx = shp
         must = xf[r] < -0.5 or yf[r] < -0.5 or xf[r] > nx or yf[r] > ny
         mustnot = 0 <= xf[r] <= nx - 0.5 and 0 <= yf[r] <= ny - 0.5
         if (must and not fl & 2) or (mustnot and fl & 2):
-            acc.violation('flag2', tag, case, {'row': r, 'flags': fl, 'x_fit': _r(xf[r]), 'y_fit': _r(yf[r])},
+            # site: a predicate on the case (which way the bit is wrong, image orientation), not the configuration
+            border = ('left' if xf[r] < -0.5 else 'right' if xf[r] > nx else 'bottom' if yf[r] < -0.5 else 'top')
+            site2 = (f'missing:beyond-{border}' if must else 'spurious:inside') + (',wide' if nx > ny else ',tall')
+            acc.violation('flag2', site2, case, {'row': r, 'flags': fl, 'x_fit': _r(xf[r]), 'y_fit': _r(yf[r])},
                           'bit 2 iff the fitted position is outside the image')
         if bool(fl & 4) != (ff[r] <= 0):
             acc.violation('flag4', tag, case, {'row': r, 'flags': fl, 'flux_fit': _r(ff[r])}, 'bit 4 iff flux_fit <= 0')
@@ -726,7 +891,7 @@ def run_case(acc, case, seed, cache=None):
     else:
         # any (clipped) median of annulus pixels lies between the smallest and the largest annulus pixel; the
         # annulus (9..12 px, enlarged by 1 px for the pixel-centre rule) sees b + PSF wings of all sources.
-        yy, xx = np.mgrid[0:SHAPE[0], 0:SHAPE[1]]
+        yy, xx = np.mgrid[0:shp[0], 0:shp[1]]
         for r in range(N):
             rr = np.hypot(xx - xin[r], yy - yin[r])
             ann = (rr >= 8.0) & (rr <= 13.0) & ~s['bad']
@@ -786,13 +951,17 @@ def run_case(acc, case, seed, cache=None):
     # ---- (h) residual image ~ 0 when every group is well posed ---------------------
     if all(wellposed.values()) and cfg['driver'] == 'single':
         try:
-            resid = ph.make_residual_image(data, psf_shape=None if cfg['psf'] in ('image', 'gridded') else 31)
+            rdata = data
+            if has_units(cfg):
+                import astropy.units as u
+                rdata = data * u.Jy
+            resid = ph.make_residual_image(rdata, psf_shape=None if cfg['psf'] in ('image', 'gridded') else 31)
         except Exception as e:
             acc.violation('raises', f'make_residual_image:{tag}:{type(e).__name__}', case, repr(e)[:300], 'an image')
             resid = None
         if resid is not None:
             good = ~s['bad']
-            dev = np.abs((np.asarray(resid) - s['bmap'])[good]).max() / np.abs((s['data'] - s['bmap'])[good]).max()
+            dev = np.abs((np.asarray(getattr(resid, 'value', resid)) - s['bmap'])[good]).max() / np.abs((s['data'] - s['bmap'])[good]).max()
             if CAL:
                 _cal('residual', dev, case)
             if not dev <= TOL_RESID:
@@ -814,8 +983,7 @@ def run_case(acc, case, seed, cache=None):
         ph1, _, _ = build_phot(cfg, s, 'single', aper=True)
         with warnings.catch_warnings():
             warnings.simplefilter('ignore')
-            res1 = ph1(s['data'].copy(), mask=None if s['umask'] is None else s['umask'].copy(),
-                       error=None if s['error'] is None else s['error'].copy(), init_params=init.copy())
+            res1 = call_phot(ph1, cfg, s, init)        # the very same input representation
         if [c for c in res.colnames if c != 'iter_detected'] != list(res1.colnames):
             acc.violation('iter-equiv', 'columns', case, res.colnames, res1.colnames)
         else:
@@ -825,6 +993,43 @@ def run_case(acc, case, seed, cache=None):
                     acc.violation('iter-equiv', c, case, d, 'identical columns')
             if [int(v) for v in res['iter_detected']] != [1] * N:
                 acc.violation('iter-equiv', 'iter_detected', case, list(res['iter_detected']), [1] * N)
+
+    # ---- (k) input representation: Quantity arrays / NDData (uncertainty as standard deviation, variance or
+    #      inverse variance, with or without units) == the plain-array call with error = sigma, same driver ---------
+    if cfg['input'] != 'arrays':
+        cfg0 = dict(cfg, input='arrays')
+        init0, _ = build_init(cfg0, s, perm, part)
+        ph0, _, _ = build_phot(cfg0, s, cfg['driver'])
+        try:
+            with warnings.catch_warnings():
+                warnings.simplefilter('ignore')
+                res0 = call_phot(ph0, cfg0, s, init0)
+        except Exception as e:
+            acc.violation('raises', f'{cfg_tag(cfg0)}:{type(e).__name__}', case, repr(e)[:300], 'a result table')
+            return None
+        site = f'{cfg["input"]},driver={cfg["driver"]}'
+        if list(res.colnames) != list(res0.colnames):
+            acc.violation('input-form', f'columns:{site}', case, res.colnames, res0.colnames)
+        else:
+            worst = 0.0
+            for c in res0.colnames:
+                a, b = _col(res, c), _col(res0, c)
+                if c == 'flags':             # bit 8 (fitter convergence message) is not a statement about the input
+                    bad = [int(v) & ~8 for v in a] != [int(v) & ~8 for v in b]
+                elif c in INPUT_EXACT_COLS:
+                    bad = a != b
+                else:
+                    dev = [0.0 if (math.isnan(v) and math.isnan(w)) or v == w else abs(v - w) / (TOL_INPUT * abs(w) + TOL_INPUT)
+                           for v, w in zip(a, b)]
+                    bad = not all(d <= 1.0 for d in dev)
+                    worst = max([worst] + [d * TOL_INPUT for d in dev if math.isfinite(d)])
+                if bad:
+                    acc.violation('input-form', site, case, {c: _r(a)}, {c: _r(b)},
+                                  'same data, mask and 1-sigma errors handed over in another representation: the '
+                                  'result differs from the plain-array call (first differing column shown)')
+                    break
+            if CAL and worst:
+                _cal('input-form', worst, case)
     return {'rows_by_identity': {perm[r]: {k: v[r] for k, v in out.items()} for r in range(N)}}
 
 
@@ -1006,15 +1211,23 @@ def plan(tier, seed):
             add('partitions', c, [1, 2])
         for c in alias_cfgs():
             add('partitions', c, [2])
-        for c in ORDER_ONLY:
+        for c in ORDER_ONLY + frame_order_cfgs():
             add('orders', c, [1, 2, 3, 4])
+        for c in frame_cfgs() + frame_clause_cfgs():
+            add('partitions', c, [3])
+        for c in input_cfgs():
+            add('partitions', c, [1, 2])
     else:
         for c in STAR + SPECIALS:
             add('partitions', c, [4])
         for c in product_cfgs(tier) + STAR + SPECIALS + prec_cfgs() + alias_cfgs():
             add('partitions', c, [1, 2, 3])
-        for c in ORDER_ONLY:
+        for c in ORDER_ONLY + frame_order_cfgs():
             add('orders', c, [1, 2, 3, 4])
+        for c in frame_cfgs():
+            add('partitions', c, [4])
+        for c in frame_cfgs() + frame_clause_cfgs() + input_cfgs():
+            add('partitions', c, [1, 2, 3])
     # long units first (load balance), but the default and the single-axis configurations with N <= 3 lead (short
     # units), so that the first recorded case of a violation key is a smallest one
     units.sort(key=lambda u: (not (u['cfg'] == {} and u['kind'] == 'partitions' and max(u['Ns']) == 3),
@@ -1078,6 +1291,19 @@ def describe(tier, seed):
                                               'values': f'{len(ALIAS_SINGLE)} single spellings + {len(ALIAS_PAIR)} '
                                                         'ordered pairs (winner real, loser decoy, loser first in the '
                                                         'table)', 'N': '1..3' if tier == 'thorough' else '2'},
+                         'geometry': {'frames': AXES['frame'], 'image_shapes': [list(SHAPE), list(SHAPE[::-1])],
+                                      'product': {'frame': AXES['frame'], 'scene': FRAME_SCENES, 'fit': FRAME_FITS,
+                                                  'configurations': len(frame_cfgs()),
+                                                  'N': '1..4' if tier == 'thorough' else '3 (the isolated source is identity 2)'},
+                                      'per_frame_clause_configurations': FRAME_CLAUSES,
+                                      'per_frame_grouper_configurations': FRAME_ORDER_ONLY,
+                                      'N_clause': '1..3' if tier == 'thorough' else '3'},
+                         'input_representation': {'forms': AXES['input'], 'drivers': AXES['driver'],
+                                                  'configurations': len(input_cfgs()),
+                                                  'N': '1..3' if tier == 'thorough' else '1..2',
+                                                  'oracle': 'equals the plain-array call (error = sigma) of the same '
+                                                            'driver; integer columns exactly, floats to 1e-9',
+                                                  'tolerance': TOL_INPUT},
                          'grouper': {'lattice': '3x3 unit lattice, integer and generic origin', 'seps': GROUPER_SEPS,
                                      'tuples': f'all ordered tuples of <= {nmax} distinct points'}},
             'bound': {'N': '1..4', 'orders_x_partitions_per_configuration': per,
